@@ -57,7 +57,7 @@ func (n *node) find(name string) (*node, prop, int, bool) {
 }
 
 // names offered for own properties; keys/S/len are also owned by Obj/BaseObj (shadowing built-ins), _p/_q are private
-var names = []string{"a", "b", "c", "d", "keys", "S", "len", "_p", "_q"}
+var names = []string{"a", "b", "c", "d", "keys", "S", "len", "_p", "_q", "B"}
 var queryNames = append(append([]string{}, names...), "zz", "id", "yy?")
 
 // ---- replayable query ----
@@ -103,6 +103,16 @@ func lookupVar(env *object.Env, name string) object.PanObject {
 
 // judgeQuery evaluates q in env and compares; returns "" if fine.
 func judgeQuery(in *interp.Interp, env *object.Env, q Query) (got string, ok bool) {
+	before := interp.BudgetEvents()
+	got, ok = judgeQueryRaw(in, env, q)
+	if !ok && interp.BudgetEvents() != before {
+		vt.Discard("an evaluation of this query ran out of its budget (inconclusive)")
+		return got, true
+	}
+	return got, ok
+}
+
+func judgeQueryRaw(in *interp.Interp, env *object.Env, q Query) (got string, ok bool) {
 	o := in.Run(q.Src, interp.Opts{Env: env})
 	got = o.Show()
 	e := q.Expect
@@ -518,6 +528,58 @@ func TestForest(t *testing.T) {
 			},
 		})
 	})
+}
+
+// TestTypedNew: `T.new(v)` makes a value whose prototype is T, whatever v is (a plain value of the base type, an instance
+// of T, a child of T, a child of the base type); lookups on it follow T's chain.
+func TestTypedNew(t *testing.T) {
+	vt.SkipIfReplay(t)
+	in := interp.Shared()
+	bases := []struct{ name, lit, lit2 string }{{"Int", "3", "0"}, {"Str", "\"q\"", "\"\""}, {"Float", "2.5", "0.0"}, {"Arr", "[1]", "[]"}}
+	k := 0
+	for _, b := range bases {
+		prelude := fmt.Sprintf("T := %s.bear({x: 1, tag: m{'t}}); kid := T.bear({y: 2}); grand := kid.bear({z: 3}); cousin := %s.bear({w: 4}); inst := T.new(%s)", b.name, b.name, b.lit)
+		for _, v := range []string{b.lit, b.lit2, "inst", "kid", "grand", "cousin", "kid.new(" + b.lit + ")", "cousin.new(" + b.lit + ")"} {
+			k++
+			if !vt.Mine(k) {
+				continue
+			}
+			env := object.NewEnclosedEnv(in.Global)
+			if o := in.Run(prelude, interp.Opts{Env: env}); o.Kind != interp.Value {
+				vt.Note("typed-new prelude "+b.name, o.Show())
+				break
+			}
+			made := in.Run("made := T.new("+v+")", interp.Opts{Env: env})
+			if made.Kind != interp.Value {
+				continue // the constructor rejects this argument
+			}
+			vt.Eval()
+			vt.Class("typed new")
+			vt.NonTrivial("new|"+b.name+"|"+v, func() any { return prelude + "; T.new(" + v + ")" })
+			for _, q := range []Query{
+				{"new-proto", "made.proto", Expect{Same: sp("T")}},
+				{"new-which", "made.which('x)", Expect{Same: sp("T")}},
+				{"new-which", "made.which('y)", Expect{Same: sp("nil")}},
+				{"new-which", "made.which('z)", Expect{Same: sp("nil")}},
+				{"new-which", "made.which('w)", Expect{Same: sp("nil")}},
+				{"new-index", "made['y]", Expect{Same: sp("nil")}},
+				{"new-call", "made.x", Expect{Inspect: sp("1")}},
+				{"new-call", "made.y", Expect{ErrKind: sp("NoPropErr")}},
+				// kindOf? is defined through == (`self == other || .ancestors.has?(other)`), and == of prototypes of scalar types
+				// follows their zero-value design (all children of Float are == 0.0): only membership of real ancestors is asserted
+				{"new-kindof", "[made.kindOf?(T), made.kindOf?(" + b.name + "), made.kindOf?(Obj), kid.kindOf?(T), grand.kindOf?(kid), T.kindOf?(T)]", Expect{Inspect: sp("[true, true, true, true, true, true]")}},
+				{"new-ancestors", "made.ancestors[0]", Expect{Same: sp("T")}},
+			} {
+				if got, ok := judgeQuery(in, env, q); !ok {
+					want, _ := json.Marshal(q.Expect)
+					vt.Record(q.Kind+":typed-new", fmt.Sprintf("%s; made := T.new(%s); %s gave %s, want %s", prelude, v, q.Src, got, want),
+						Case{History: []string{prelude, "made := T.new(" + v + ")"}, Query: q, Got: got})
+					break
+				}
+			}
+		}
+	}
+	vt.Exhaustive("4 base types (Map has no typed constructor) x 8 constructor arguments x 10 lookups on T.new(v)")
 }
 
 func TestReplay(t *testing.T) {
